@@ -30,7 +30,7 @@ def rows(idx, nlines=2):
     out = []
     for n in range(0, nlines + 1):
         lines = [Residual(f"L{i}") for i in range(n)]
-        it = Interp(idx, types={"self": "CsvPath"}, unknown_calls="residual",
+        it = Interp(idx, types={"self": "CsvPath"}, unknown_calls="residual", inline_all={"CsvPath"},
                     domains={"self.scanner": [Obj("scanner")], "self._next_line()": [lines]},
                     handlers={"self._consider_line": consider, "self.limit_collection": limit, "self.finalize": fin,
                               "self.unmatched.append": unm_append, "len": lambda i, c, r, a, k: 1})
